@@ -181,10 +181,63 @@ func EntryLocks(p *Prog, pkgPath string) (map[*ssa.Function]LockSet, map[*ssa.Fu
 	}
 	entry := map[*ssa.Function]LockSet{}
 	top := map[*ssa.Function]bool{} // not yet constrained
+	// a function literal handed directly to a synchronous library routine
+	// (slices.IndexFunc, sort.Slice, …) runs while that call runs: it inherits the
+	// lockset of the call instead of starting with nothing
+	syncArgSites := map[*ssa.Function][]ssa.Instruction{}
+	for _, f := range fns {
+		if f.Parent() == nil || f.Referrers() == nil {
+			continue
+		}
+		ok := true
+		var sites []ssa.Instruction
+		for _, r := range *f.Referrers() {
+			mc, isMC := r.(*ssa.MakeClosure)
+			if !isMC {
+				ok = false
+				break
+			}
+			for _, u := range Refs(mc) {
+				if _, isDbg := u.(*ssa.DebugRef); isDbg {
+					continue
+				}
+				cl, isCall := u.(*ssa.Call)
+				if !isCall {
+					ok = false
+					break
+				}
+				cal := cl.Call.StaticCallee()
+				if cal == nil || cal.Pkg == nil || strings.HasPrefix(cal.Pkg.Pkg.Path(), ModPath) {
+					// generic library functions are instantiated: Pkg is nil for those
+					if cal == nil || cal.Origin() == nil || cal.Origin().Pkg == nil || strings.HasPrefix(cal.Origin().Pkg.Pkg.Path(), ModPath) {
+						ok = false
+						break
+					}
+				}
+				isArg := false
+				for _, a := range cl.Call.Args {
+					if a == ssa.Value(mc) {
+						isArg = true
+					}
+				}
+				if !isArg {
+					ok = false
+					break
+				}
+				sites = append(sites, cl)
+			}
+		}
+		if ok && len(sites) > 0 {
+			syncArgSites[f] = sites
+		}
+	}
 	for _, f := range fns {
 		open := f.Parent() != nil // closures
+		if syncArgSites[f] != nil {
+			open = false
+		}
 		callers := p.Callers(f)
-		if len(callers) == 0 {
+		if len(callers) == 0 && syncArgSites[f] == nil {
 			open = true
 		}
 		for _, ci := range callers {
@@ -196,7 +249,7 @@ func EntryLocks(p *Prog, pkgPath string) (map[*ssa.Function]LockSet, map[*ssa.Fu
 			}
 		}
 		// address taken (used as a value)?
-		if f.Referrers() != nil {
+		if f.Referrers() != nil && syncArgSites[f] == nil {
 			for _, r := range *f.Referrers() {
 				if _, isCall := r.(ssa.CallInstruction); !isCall {
 					open = true
@@ -231,6 +284,18 @@ func EntryLocks(p *Prog, pkgPath string) (map[*ssa.Function]LockSet, map[*ssa.Fu
 					continue
 				}
 				h := computed[caller][ci]
+				if h == nil {
+					h = LockSet{}
+				}
+				acc = meet(acc, h)
+				constrained = true
+			}
+			for _, site := range syncArgSites[f] {
+				caller := site.Parent()
+				if !inPkg[caller] || top[caller] || computed[caller] == nil {
+					continue
+				}
+				h := computed[caller][site]
 				if h == nil {
 					h = LockSet{}
 				}
